@@ -19,6 +19,8 @@ func init() {
 			ruleR0(c, r, "", c.Func("lzma", "decoder.Read"), nil)
 			ruleR0(c, r, "", c.Func("lzma", "Reader.Read"), nil)
 			ruleNoProgress(c, r, "")
+			ruleCounting(c, r, "", "read")
+			ruleDecoderReadErr(c, r, "")
 			ruleReadInvokes(c, r, "")
 			ruleEOF(c, r, readerAPI(c), readerCone(c), "")
 			r.Floor("SEQ-STICKY", 2)
